@@ -31,6 +31,7 @@ def gen_state_cfg(r, types=TYPES, type_weights=(2, 1, 1), max_nv=3, max_nh=3, ma
         cfg["na"] = r.randint(1, max_na)
     if typ != "positive" and r.random() < custom_p:
         cfg["custom_unitary"] = True
+        cfg["custom_name"] = r.choice(["H", "H", "Xr", "rot2"])
     if typ != "density" and r.random() < 0.12:
         cfg["param_layout"] = "colmajor"
     return cfg
@@ -48,6 +49,7 @@ def gen_data_cfg(r, scfg, max_N=9, forms=("tensor", "tensor", "ndarray", "list")
     }
     if scfg.get("custom_unitary"):
         cfg["custom_unitary"] = True
+        cfg["custom_name"] = scfg.get("custom_name", "H")
     return cfg
 
 
